@@ -1000,6 +1000,7 @@ class IntermediateCodeGen(AbstractCodeGen):
         self._importMap.clear()
         self._out.clear()
         self._moduleIdentityOid = None
+        self._moduleRevision = None
         self._enterpriseOid = None
         self._oids = set()
         self._complianceOids = []
